@@ -44,7 +44,12 @@ func Arithm(cfg *Config, expr syntax.ArithmExpr) (int, error) {
 			if err != nil {
 				return 0, err
 			}
-			old := atoi(cfg.envGet(name))
+			// The old value is itself evaluated, as it may name another variable.
+			oldInt, err := Arithm(cfg, expr.X)
+			if err != nil {
+				return 0, err
+			}
+			old := int64(oldInt)
 			val := old
 			if expr.Op == syntax.Inc {
 				val++
@@ -226,7 +231,15 @@ func (cfg *Config) assgnArit(b *syntax.BinaryArithm) (int, error) {
 	if err != nil {
 		return 0, err
 	}
-	val := atoi(cfg.envGet(name))
+	var val int64
+	if b.Op != syntax.Assgn {
+		// The old value is itself evaluated, as it may name another variable.
+		old, err := Arithm(cfg, b.X)
+		if err != nil {
+			return 0, err
+		}
+		val = int64(old)
+	}
 	arg_, err := Arithm(cfg, b.Y)
 	if err != nil {
 		return 0, err
